@@ -17,6 +17,7 @@ INVARIANT Antisymmetry
 INVARIANT ActDifference
 INVARIANT DetailedBalance
 INVARIANT KeqActRatio
+INVARIANT ActWithoutTSRefused
 INVARIANT RouteIsolation
 PROPERTY CallerUntouched
 CHECK_DEADLOCK FALSE
